@@ -1125,6 +1125,7 @@ func (w *World) monKept(h []ev) {
 	type rec struct {
 		tag string
 		rel bool
+		id  packet.ID
 	}
 	key := func(c int) string {
 		p := w.peers[c]
@@ -1141,6 +1142,20 @@ func (w *World) monKept(h []ev) {
 		return out[k]
 	}
 	expect := map[int]map[packet.ID]*rec{} // resumed connection -> what must still be retransmitted in this step
+	// messages whose packet id was handed to a newer message while they were unacknowledged: they are still owed to the
+	// peer (it never acknowledged them), whatever the store did with their record
+	displaced := map[string][]*rec{}
+	expectTag := map[int]map[string]packet.ID{} // resumed connection -> displaced messages still to be retransmitted
+	// an acknowledgement carrying the id cannot tell the two messages apart: it settles both (conservative)
+	undisplace := func(k string, id packet.ID) {
+		var keep []*rec
+		for _, r := range displaced[k] {
+			if r.id != id {
+				keep = append(keep, r)
+			}
+		}
+		displaced[k] = keep
+	}
 	dead := map[int]bool{}
 	flush := func() {
 		for c, m := range expect {
@@ -1155,6 +1170,14 @@ func (w *World) monKept(h []ev) {
 			}
 			delete(expect, c)
 		}
+		for c, m := range expectTag {
+			if !dead[c] {
+				for tag, id := range m {
+					w.hit("resend-missing", fmt.Sprintf("connection %d resumed its session but message %q, transmitted earlier under packet id %d and never acknowledged, was not retransmitted: its id was handed to a newer message, which replaced its record", c, tag, id))
+				}
+			}
+			delete(expectTag, c)
+		}
 	}
 	for _, e := range h {
 		if strings.HasPrefix(e.kind, "stim-") || e.kind == "bclose" || e.kind == "ackrelease" || e.kind == "finish" {
@@ -1167,12 +1190,18 @@ func (w *World) monKept(h []ev) {
 		case "setup":
 			if e.txt == "0" {
 				delete(out, k)
+				delete(displaced, k)
 			} else {
 				m := map[packet.ID]*rec{}
 				for id, r := range get(k) {
-					m[id] = &rec{r.tag, r.rel}
+					m[id] = &rec{r.tag, r.rel, id}
 				}
 				expect[e.conn] = m
+				mt := map[string]packet.ID{}
+				for _, r := range displaced[k] {
+					mt[r.tag] = r.id
+				}
+				expectTag[e.conn] = mt
 			}
 		case "sent", "sendfail":
 			switch p := e.pkt.(type) {
@@ -1184,14 +1213,22 @@ func (w *World) monKept(h []ev) {
 				if !p.Dup {
 					if r, busy := get(k)[p.ID]; busy {
 						w.hit("id-reused-while-unacked", fmt.Sprintf("connection %d: packet id %d handed to new message %q while %q sent under the same id is still unacknowledged", e.conn, p.ID, tag, r.tag))
+						if !r.rel && r.tag != tag && r.tag != "" {
+							displaced[k] = append(displaced[k], &rec{tag: r.tag, id: p.ID})
+						}
 					}
-				} else if m := expect[e.conn]; m != nil {
-					if r, ok := m[p.ID]; ok && !r.rel && r.tag != tag {
-						w.hit("resend-altered", fmt.Sprintf("connection %d: id %d retransmitted with payload %q, originally %q", e.conn, p.ID, tag, r.tag))
+				} else {
+					if m := expect[e.conn]; m != nil {
+						if r, ok := m[p.ID]; ok && !r.rel && r.tag != tag {
+							w.hit("resend-altered", fmt.Sprintf("connection %d: id %d retransmitted with payload %q, originally %q", e.conn, p.ID, tag, r.tag))
+						}
+						delete(m, p.ID)
 					}
-					delete(m, p.ID)
+					if m := expectTag[e.conn]; m != nil {
+						delete(m, tag)
+					}
 				}
-				get(k)[p.ID] = &rec{tag: tag}
+				get(k)[p.ID] = &rec{tag: tag, id: p.ID}
 			case *packet.Pubrel:
 				if m := expect[e.conn]; m != nil {
 					delete(m, p.ID)
@@ -1206,8 +1243,10 @@ func (w *World) monKept(h []ev) {
 			switch p := e.pkt.(type) {
 			case *packet.Puback:
 				delete(get(k), p.ID)
+				undisplace(k, p.ID)
 			case *packet.Pubcomp:
 				delete(get(k), p.ID)
+				undisplace(k, p.ID)
 			case *packet.Pubrec:
 				if r := get(k)[p.ID]; r != nil {
 					r.rel = true
